@@ -208,6 +208,25 @@ pub fn replay_numeric(cases_path: &str, out_path: &str) {
                         }
                     }
                 }
+                | "farith" => {
+                    // IEEE arithmetic on integer-valued operands: the model's integer is the exact expected value
+                    n += 1;
+                    let w = row["w"].as_u64().unwrap();
+                    let (x, y, r) = (row["x"].as_i64().unwrap(), row["y"].as_i64().unwrap(), row["r"].as_i64().unwrap());
+                    let mkf = |v: i64| -> Literal {
+                        if w == 32 { Literal::Float(FloatLiteral::from_f32_bits((v as f32).to_bits())) } else { Literal::Float(FloatLiteral::from_bits((v as f64).to_bits())) }
+                    };
+                    let ft = if w == 32 { FloatType::Float32 } else { FloatType::Float64 };
+                    let op = match row["op"].as_str().unwrap() { | "add" => FloatOperation::Add, | "sub" => FloatOperation::Sub, | _ => FloatOperation::Mul };
+                    let (end, _) = run_role(BuiltinValueRole::Float(ft, op), vec![lit(mkf(x)), lit(mkf(y))], b"", &[]);
+                    let want = mkf(r);
+                    match end {
+                        | RoleEnd::Ret(zydeco_dynamics::syntax::SemValue::Literal(l)) if l == want => {}
+                        // integers have one zero: -1 * 0 is -0.0 in IEEE arithmetic, the model says 0
+                        | RoleEnd::Ret(zydeco_dynamics::syntax::SemValue::Literal(Literal::Float(f))) if r == 0 && (f.to_bits() << 1 == 0 || f.to_bits() == 0x8000_0000) => {}
+                        | other => bad("float-arithmetic", format!("float{w} {} {x} {y}: integer-exact IEEE result {r}, runtime {other:?}", row["op"])),
+                    }
+                }
                 | "flt" => {
                     n += 1;
                     let w = row["w"].as_u64().unwrap();
